@@ -10,7 +10,7 @@ use soroban_sdk::{
 };
 use stellar_contract_utils::pausable::{self, Pausable};
 use stellar_tokens::{
-    fungible::{Base, FungibleToken},
+    fungible::FungibleToken,
     rwa::{RWAError, RWAToken, RWA},
 };
 use vh::*;
@@ -187,12 +187,20 @@ impl Tok {
         let mut accts: Vec<(i128, i128, bool)> = Vec::new(e);
         let mut allow: Vec<i128> = Vec::new(e);
         for a in addrs.iter() {
-            accts.push_back((Base::balance(e, &a), RWA::get_frozen_tokens(e, &a), RWA::is_frozen(e, &a)));
-            for s in addrs.iter() { allow.push_back(Base::allowance(e, &a, &s)); }
+            // the PUBLIC getters of the contract: the FungibleToken / RWAToken / Pausable trait methods
+            accts.push_back((
+                <Tok as FungibleToken>::balance(e, a.clone()),
+                <Tok as RWAToken>::get_frozen_tokens(e, a.clone()),
+                <Tok as RWAToken>::is_frozen(e, a.clone()),
+            ));
+            for s in addrs.iter() { allow.push_back(<Tok as FungibleToken>::allowance(e, a.clone(), s.clone())); }
         }
-        (pausable::paused(e), Base::total_supply(e), accts, allow)
+        (<Tok as Pausable>::paused(e), <Tok as FungibleToken>::total_supply(e), accts, allow)
     }
 }
+
+const CMP0: u64 = 50; // the compliance contracts are numbered 50, 51
+const IDV0: u64 = 60; // the identity verifiers 60, 61
 
 // ---------------------------------------------------------------- calls
 #[derive(Clone, Debug)]
@@ -209,8 +217,8 @@ enum Op {
     Unfreeze(usize, i128, usize),
     Pause(usize),
     Unpause(usize),
-    SetCompliance(usize),
-    SetIdv(usize),
+    SetCompliance(usize, usize), // which instance, operator
+    SetIdv(usize, usize),
     Advance(u32),
 }
 
@@ -249,7 +257,7 @@ impl Op {
             Op::TransferFrom(s, _, _, _) => Some(s),
             Op::Approve(o, _, _, _) => Some(o),
             Op::Mint(_, _, o) | Op::Burn(_, _, o) | Op::Forced(_, _, _, o) | Op::Recover(_, _, o) | Op::SetFrozen(_, _, o)
-            | Op::Freeze(_, _, o) | Op::Unfreeze(_, _, o) | Op::Pause(o) | Op::Unpause(o) | Op::SetCompliance(o) | Op::SetIdv(o) => Some(o),
+            | Op::Freeze(_, _, o) | Op::Unfreeze(_, _, o) | Op::Pause(o) | Op::Unpause(o) | Op::SetCompliance(_, o) | Op::SetIdv(_, o) => Some(o),
             Op::Advance(_) => None,
         }
     }
@@ -268,8 +276,8 @@ impl Op {
             Op::Unfreeze(x, m, o) => format!("Unfreeze {} {} {}", a(x), z(m), a(o)),
             Op::Pause(o) => format!("Pause {}", a(o)),
             Op::Unpause(o) => format!("Unpause {}", a(o)),
-            Op::SetCompliance(o) => format!("SetCompliance {}", a(o)),
-            Op::SetIdv(o) => format!("SetIdentityVerifier {}", a(o)),
+            Op::SetCompliance(k, o) => format!("SetCompliance {} {}", n(CMP0 + k as u64), a(o)),
+            Op::SetIdv(k, o) => format!("SetIdentityVerifier {} {}", n(IDV0 + k as u64), a(o)),
             Op::Advance(k) => format!("Advance {}", k),
         }
     }
@@ -301,8 +309,8 @@ struct Mirror {
 struct World {
     e: Env,
     tok: Address,
-    idv: Address,
-    cmp: Address,
+    idvs: std::vec::Vec<Address>, // two identity verifiers (60, 61): the token must ask the one it currently points at
+    cmps: std::vec::Vec<Address>, // two compliance contracts (50, 51)
     addrs: std::vec::Vec<Address>,
     m: Mirror,
     min_temp: u32,
@@ -324,12 +332,12 @@ impl World {
             l.max_entry_ttl = max_ttl;
         });
         let tok = e.register(Tok, ());
-        let idv = e.register(MockIdv, ());
-        let cmp = e.register(MockCmp, ());
-        e.as_contract(&cmp, || e.storage().instance().set(&symbol_short!("tok"), &tok));
+        let idvs: std::vec::Vec<Address> = (0..2).map(|_| e.register(MockIdv, ())).collect();
+        let cmps: std::vec::Vec<Address> = (0..2).map(|_| e.register(MockCmp, ())).collect();
+        for c in &cmps { e.as_contract(c, || e.storage().instance().set(&symbol_short!("tok"), &tok)); }
         let addrs: std::vec::Vec<Address> = (0..nu).map(|_| Address::generate(&e)).collect();
         let m = Mirror { bal: vec![0; nu], frz: vec![0; nu], flag: vec![false; nu], allow: vec![0; nu * nu], ..Default::default() };
-        World { e, tok, idv, cmp, addrs, m, min_temp, max_ttl, items: vec![], trapped_reads: 0, real: false }
+        World { e, tok, idvs, cmps, addrs, m, min_temp, max_ttl, items: vec![], trapped_reads: 0, real: false }
     }
     fn nu(&self) -> usize { self.addrs.len() }
     fn idx(&self, a: &Address) -> u64 {
@@ -338,22 +346,26 @@ impl World {
     fn free(&self, i: usize) -> i128 { self.m.bal[i].saturating_sub(self.m.frz[i]) }
     fn allowance(&self, o: usize, s: usize) -> i128 { self.m.allow[o * self.nu() + s] }
 
-    fn set_oracle(&self, o: &Orc) {
+    /// the answer tables of the two instances of each collaborator (instance k answers by `os[k]`) + empty logs
+    fn set_oracle(&self, os: [&Orc; 2]) {
         let e = &self.e;
-        e.as_contract(&self.idv, || {
-            let mut v: Vec<Address> = Vec::new(e);
-            for &i in &o.verified { v.push_back(self.addrs[i].clone()); }
-            let mut r: Map<Address, Address> = Map::new(e);
-            for &(x, y) in &o.rec { r.set(self.addrs[x].clone(), self.addrs[y].clone()); }
-            e.storage().instance().set(&symbol_short!("ver"), &v);
-            e.storage().instance().set(&symbol_short!("rec"), &r);
-            e.storage().instance().set(&symbol_short!("log"), &Vec::<(u32, Address)>::new(e));
-        });
-        e.as_contract(&self.cmp, || {
-            e.storage().instance().set(&symbol_short!("ct"), &o.ct);
-            e.storage().instance().set(&symbol_short!("cc"), &o.cc);
-            e.storage().instance().set(&symbol_short!("log"), &Vec::<(u32, Address, Address, i128, bool)>::new(e));
-        });
+        for k in 0..2 {
+            let o = os[k];
+            e.as_contract(&self.idvs[k], || {
+                let mut v: Vec<Address> = Vec::new(e);
+                for &i in &o.verified { v.push_back(self.addrs[i].clone()); }
+                let mut r: Map<Address, Address> = Map::new(e);
+                for &(x, y) in &o.rec { r.set(self.addrs[x].clone(), self.addrs[y].clone()); }
+                e.storage().instance().set(&symbol_short!("ver"), &v);
+                e.storage().instance().set(&symbol_short!("rec"), &r);
+                e.storage().instance().set(&symbol_short!("log"), &Vec::<(u32, Address)>::new(e));
+            });
+            e.as_contract(&self.cmps[k], || {
+                e.storage().instance().set(&symbol_short!("ct"), &o.ct);
+                e.storage().instance().set(&symbol_short!("cc"), &o.cc);
+                e.storage().instance().set(&symbol_short!("log"), &Vec::<(u32, Address, Address, i128, bool)>::new(e));
+            });
+        }
     }
 
     fn invocation(&self, op: &Op) -> Option<(&'static str, Vec<Val>)> {
@@ -372,8 +384,8 @@ impl World {
             Op::Unfreeze(x, m, o) => ("unfreeze_partial_tokens", (a(x), m, a(o)).into_val(e)),
             Op::Pause(o) => ("pause", (a(o),).into_val(e)),
             Op::Unpause(o) => ("unpause", (a(o),).into_val(e)),
-            Op::SetCompliance(o) => ("set_compliance", (self.cmp.clone(), a(o)).into_val(e)),
-            Op::SetIdv(o) => ("set_identity_verifier", (self.idv.clone(), a(o)).into_val(e)),
+            Op::SetCompliance(k, o) => ("set_compliance", (self.cmps[k].clone(), a(o)).into_val(e)),
+            Op::SetIdv(k, o) => ("set_identity_verifier", (self.idvs[k].clone(), a(o)).into_val(e)),
             Op::Advance(_) => return None,
         })
     }
@@ -419,12 +431,27 @@ impl World {
             }
         }
         let none: Vec<Val> = Vec::new(e);
-        let cmp_set = self.try_get::<Address>("compliance", none.clone()).is_some();
-        let idv_set = self.try_get::<Address>("identity_verifier", none).is_some();
-        let ilog: Vec<(u32, Address)> = if self.real { Vec::new(e) } else {
-            e.as_contract(&self.idv, || e.storage().instance().get(&symbol_short!("log")).unwrap_or(Vec::new(e))) };
-        let clog: Vec<(u32, Address, Address, i128, bool)> = if self.real { Vec::new(e) } else {
-            e.as_contract(&self.cmp, || e.storage().instance().get(&symbol_short!("log")).unwrap_or(Vec::new(e))) };
+        // the links, as the public getters report them (None = the getter traps)
+        let link = |x: Option<Address>, insts: &std::vec::Vec<Address>, base: u64| -> std::string::String {
+            match x { None => "None".to_string(), Some(a) => format!("(Some {})", n(insts.iter().position(|y| *y == a).map(|k| base + k as u64).unwrap_or(999))) }
+        };
+        let cmp_at = link(self.try_get::<Address>("compliance", none.clone()), &self.cmps, CMP0);
+        let idv_at = link(self.try_get::<Address>("identity_verifier", none), &self.idvs, IDV0);
+        // the logs of BOTH instances of each collaborator, and which instance it was that logged
+        let mut ilog: Vec<(u32, Address)> = Vec::new(e);
+        let mut clog: Vec<(u32, Address, Address, i128, bool)> = Vec::new(e);
+        let (mut ifrom, mut cfrom): (Option<u64>, Option<u64>) = (None, None);
+        if !self.real {
+            for k in 0..self.idvs.len() {
+                let l: Vec<(u32, Address)> = e.as_contract(&self.idvs[k], || e.storage().instance().get(&symbol_short!("log")).unwrap_or(Vec::new(e)));
+                if !l.is_empty() { ifrom = Some(if ifrom.is_some() { 999 } else { IDV0 + k as u64 }); ilog.append(&l); }
+            }
+            for k in 0..self.cmps.len() {
+                let l: Vec<(u32, Address, Address, i128, bool)> = e.as_contract(&self.cmps[k], || e.storage().instance().get(&symbol_short!("log")).unwrap_or(Vec::new(e)));
+                if !l.is_empty() { cfrom = Some(if cfrom.is_some() { 999 } else { CMP0 + k as u64 }); clog.append(&l); }
+            }
+        }
+        let from = |x: Option<u64>| match x { None => "None".to_string(), Some(v) => format!("(Some {})", n(v)) };
         let accts: std::vec::Vec<_> = (0..nu).map(|i| format!("({}, {}, {})", z(m.bal[i]), z(m.frz[i]), b(m.flag[i]))).collect();
         let allow: std::vec::Vec<_> = m.allow.iter().map(|&v| z(v)).collect();
         let il: std::vec::Vec<_> = ilog.iter().map(|(k, a)| {
@@ -441,16 +468,20 @@ impl World {
             }
         }).collect();
         self.m = m;
-        format!("(mkObs {} {} {} {} {} {} {} {})", b(self.m.paused), z(self.m.supply), list(&accts), list(&allow), list(&il), list(&cl), b(cmp_set), b(idv_set))
+        format!("(mkObs {} {} {} {} {} {} {} {} {} {})", b(self.m.paused), z(self.m.supply), list(&accts), list(&allow), list(&il), list(&cl), cmp_at, idv_at, from(cfrom), from(ifrom))
     }
 
     /// execute one call with the exact authorisation set `auths` and the collaborators' answers `orc`
-    fn exec(&mut self, out: &mut Out, op: &Op, auths: &[usize], orc: &Orc) -> bool {
-        self.set_oracle(orc);
+    fn exec(&mut self, out: &mut Out, op: &Op, auths: &[usize], orc: &Orc) -> bool { self.exec2(out, op, auths, orc, None) }
+
+    /// `orc` = the answers of the collaborators 50 / 60, `orc_b` = those of 51 / 61 (None = the same)
+    fn exec2(&mut self, out: &mut Out, op: &Op, auths: &[usize], orc: &Orc, orc_b: Option<&Orc>) -> bool {
+        self.set_oracle([orc, orc_b.unwrap_or(orc)]);
         let (ok, outcome) = self.run_op(op, auths);
         let obs = self.observe();
         let au: std::vec::Vec<_> = auths.iter().map(|&i| n(i as u64)).collect();
-        let call = format!("(mkCall ({}) {} {})", op.coq(), list(&au), orc.coq());
+        let oc = match orc_b { None => format!("(orc1 {})", orc.coq()), Some(ob) => format!("(orc2 {} {})", orc.coq(), ob.coq()) };
+        let call = format!("(mkCall ({}) {} {})", op.coq(), list(&au), oc);
         out.case(&format!("{}/{}", op.kind(), if ok { "ok" } else { "fail" }), &call);
         self.items.push(format!("I {} {} {}", call, outcome, obs));
         ok
@@ -486,7 +517,7 @@ impl World {
             }
         };
         if ok {
-            match op { Op::SetCompliance(_) => self.m.cmp_set = true, Op::SetIdv(_) => self.m.idv_set = true, _ => {} }
+            match op { Op::SetCompliance(..) => self.m.cmp_set = true, Op::SetIdv(..) => self.m.idv_set = true, _ => {} }
         }
         (ok, outcome)
     }
@@ -512,8 +543,8 @@ const MAXTTL: u32 = 6_312_000;
 
 fn setup_std(w: &mut World, out: &mut Out, adv: u32) {
     w.exec_plain(out, &Op::Advance(adv));
-    w.exec_plain(out, &Op::SetCompliance(0));
-    w.exec_plain(out, &Op::SetIdv(0));
+    w.exec_plain(out, &Op::SetCompliance(0, 0));
+    w.exec_plain(out, &Op::SetIdv(0, 0));
 }
 
 /// exhaustive gate vector for one entry point: bit0 paused, bit1 from frozen, bit2 to frozen,
@@ -688,8 +719,8 @@ fn directed(out: &mut Out) {
     for which in 0..3 {
         let mut w = World::new(nu, 1, MAXTTL);
         w.exec_plain(out, &Op::Advance(2));
-        if which == 1 { w.exec_plain(out, &Op::SetCompliance(0)); }
-        if which == 2 { w.exec_plain(out, &Op::SetIdv(0)); }
+        if which == 1 { w.exec_plain(out, &Op::SetCompliance(0, 0)); }
+        if which == 2 { w.exec_plain(out, &Op::SetIdv(0, 0)); }
         w.exec_plain(out, &Op::Mint(0, 100, adm));
         w.exec_plain(out, &Op::Freeze(0, 10, adm));
         w.exec_plain(out, &Op::SetFrozen(1, true, adm));
@@ -697,11 +728,11 @@ fn directed(out: &mut Out) {
         w.exec_plain(out, &Op::Pause(adm));
         w.exec_plain(out, &Op::Unpause(adm));
         w.exec_plain(out, &Op::Unpause(adm));
-        w.exec_plain(out, &Op::SetIdv(1));
+        w.exec_plain(out, &Op::SetIdv(1, 1));
         w.exec_plain(out, &Op::Mint(0, 100, adm));
         w.exec_plain(out, &Op::Transfer(0, 2, 5));
         w.exec_plain(out, &Op::Burn(0, 5, adm));
-        w.exec_plain(out, &Op::SetCompliance(1));
+        w.exec_plain(out, &Op::SetCompliance(1, 1));
         w.exec_plain(out, &Op::Mint(0, 100, adm));
         w.exec_plain(out, &Op::Transfer(0, 2, 5));
         w.exec_plain(out, &Op::Burn(0, 5, adm));
@@ -752,6 +783,137 @@ fn persistence(out: &mut Out) {
     }
 }
 
+fn lab(out: &mut Out, name: &str, ok: bool) { out.label(&format!("d.{}/{}", name, if ok { "ok" } else { "fail" })); }
+
+/// the situations of the property's quantifier, each reached deterministically and under its own label
+fn situations(out: &mut Out) {
+    let nu = 4;
+    let adm = 3usize;
+    let open = Orc::open(nu);
+    let base = |out: &mut Out| -> World {
+        let mut w = World::new(nu, 1, MAXTTL);
+        setup_std(&mut w, out, 9);
+        w.exec_plain(out, &Op::Mint(0, 100, adm));
+        w.exec_plain(out, &Op::Mint(1, 40, adm));
+        w.exec_plain(out, &Op::Freeze(0, 80, adm));
+        w
+    };
+    // the mint gate
+    {
+        let mut w = base(out);
+        let mut o = open.clone(); o.verified.retain(|&x| x != 2);
+        let r = w.exec(out, &Op::Mint(2, 5, adm), &[adm], &o); lab(out, "mint/recipient-unverified", r);
+        let mut o = open.clone(); o.cc = false;
+        let r = w.exec(out, &Op::Mint(2, 5, adm), &[adm], &o); lab(out, "mint/can_create-refuses", r);
+        let mut o = open.clone(); o.ct = false; o.verified = vec![2];
+        let r = w.exec(out, &Op::Mint(2, 5, adm), &[adm], &o); lab(out, "mint/only-recipient-and-can_create-matter", r);
+        let r = w.exec(out, &Op::Mint(2, 0, adm), &[adm], &open); lab(out, "mint/zero-amount", r);
+        w.finish(out, "situations/mint-gate");
+    }
+    // recovery variants
+    {
+        let mut w = base(out);
+        w.exec_plain(out, &Op::SetFrozen(0, true, adm));
+        w.exec_plain(out, &Op::Freeze(1, 15, adm));
+        let mut o = open.clone(); o.rec = vec![(0, 1)];
+        let r = w.exec(out, &Op::Recover(0, 2, adm), &[adm], &o); lab(out, "recover/wrong-target", r);
+        let r = w.exec(out, &Op::Recover(0, 1, adm), &[adm], &open); lab(out, "recover/no-target-registered", r);
+        let mut o2 = o.clone(); o2.verified.retain(|&x| x != 1);
+        let r = w.exec(out, &Op::Recover(0, 1, adm), &[adm], &o2); lab(out, "recover/target-unverified", r);
+        let r = w.exec(out, &Op::Recover(0, 1, adm), &[], &o); lab(out, "recover/operator-did-not-sign", r);
+        let mut o3 = o.clone(); o3.rec = vec![(2, 1)];
+        let r = w.exec(out, &Op::Recover(2, 1, adm), &[adm], &o3); lab(out, "recover/nothing-to-move", r);
+        let r = w.exec(out, &Op::Recover(0, 1, adm), &[adm], &o); lab(out, "recover/moved-with-freeze-state", r);
+        let r = w.exec(out, &Op::Recover(0, 1, adm), &[adm], &o); lab(out, "recover/second-time-nothing", r);
+        w.finish(out, "situations/recovery");
+    }
+    // a zero-amount movement does not slip under a closed gate
+    for (k, name) in ["paused", "from-frozen", "to-frozen", "from-unverified", "to-unverified", "compliance-refuses"].iter().enumerate() {
+        for via in [false, true] {
+            let mut w = base(out);
+            if via { w.exec_plain(out, &Op::Approve(0, 2, 10, 1000)); }
+            let mut o = open.clone();
+            match k { 0 => { w.exec_plain(out, &Op::Pause(adm)); } 1 => { w.exec_plain(out, &Op::SetFrozen(0, true, adm)); } 2 => { w.exec_plain(out, &Op::SetFrozen(1, true, adm)); }
+                      3 => o.verified.retain(|&x| x != 0), 4 => o.verified.retain(|&x| x != 1), _ => o.ct = false }
+            let (op, au) = if via { (Op::TransferFrom(2, 0, 1, 0), vec![2]) } else { (Op::Transfer(0, 1, 0), vec![0]) };
+            let r = w.exec(out, &op, &au, &o);
+            lab(out, &format!("zero-amount/{}/{}", if via { "transfer_from" } else { "transfer" }, name), r);
+            w.finish(out, &format!("situations/zero-amount/{}/{}", name, via));
+        }
+    }
+    // supervisory movements that need part of the frozen tokens: free = 20 < amount <= balance = 100
+    {
+        let mut w = base(out);
+        let r = w.exec_plain(out, &Op::Forced(0, 1, 21, adm)); lab(out, "forced_transfer/free<amt<=bal", r);
+        let r = w.exec_plain(out, &Op::Burn(0, 30, adm)); lab(out, "burn/free<amt<=bal", r);
+        let r = w.exec_plain(out, &Op::Forced(0, 1, 49, adm)); lab(out, "forced_transfer/whole-balance", r);
+        let r = w.exec_plain(out, &Op::Burn(0, 1, adm)); lab(out, "burn/more-than-balance", r);
+        w.finish(out, "situations/unfreeze-needed");
+    }
+    // transfer_from: allowance and gates together; spender aliases
+    {
+        let mut w = base(out);
+        w.exec_plain(out, &Op::Approve(0, 2, 10, 1000));
+        let r = w.exec_plain(out, &Op::TransferFrom(2, 0, 1, 11)); lab(out, "transfer_from/insufficient-allowance-only", r);
+        let mut o = open.clone(); o.ct = false;
+        let r = w.exec(out, &Op::TransferFrom(2, 0, 1, 11), &[2], &o); lab(out, "transfer_from/closed-gate-and-insufficient-allowance", r);
+        let r = w.exec(out, &Op::TransferFrom(2, 0, 1, 5), &[0], &open); lab(out, "transfer_from/holder-signs-instead-of-spender", r);
+        let r = w.exec_plain(out, &Op::TransferFrom(2, 0, 2, 5)); lab(out, "transfer_from/spender-is-receiver", r);
+        w.exec_plain(out, &Op::Approve(0, 0, 5, 1000));
+        let r = w.exec_plain(out, &Op::TransferFrom(0, 0, 1, 5)); lab(out, "transfer_from/spender-is-holder", r);
+        let r = w.exec_plain(out, &Op::TransferFrom(1, 0, 1, 1)); lab(out, "transfer_from/no-allowance", r);
+        // the receiver's own frozen tokens / partial freeze are irrelevant
+        w.exec_plain(out, &Op::Freeze(1, 40, adm));
+        let r = w.exec_plain(out, &Op::Transfer(0, 1, 5)); lab(out, "transfer/receiver-has-all-its-tokens-frozen", r);
+        w.finish(out, "situations/allowance");
+    }
+    // the CURRENTLY registered collaborators: 50 / 60 and 51 / 61 answer differently
+    {
+        let mut w = World::new(nu, 1, MAXTTL);
+        w.exec_plain(out, &Op::Advance(4));
+        w.exec_plain(out, &Op::SetCompliance(0, adm));
+        w.exec_plain(out, &Op::SetIdv(0, adm));
+        let mut closed = open.clone(); closed.ct = false; closed.cc = false; closed.verified = vec![];
+        let r = w.exec2(out, &Op::Mint(0, 100, adm), &[adm], &open, Some(&closed)); lab(out, "switch/first-pair-open", r);
+        w.exec_plain(out, &Op::SetCompliance(1, adm));
+        let r = w.exec2(out, &Op::Transfer(0, 1, 5), &[0], &open, Some(&closed)); lab(out, "switch/new-compliance-refuses", r);
+        let mut vonly = closed.clone(); vonly.ct = true; vonly.cc = true;
+        let r = w.exec2(out, &Op::Transfer(0, 1, 5), &[0], &closed, Some(&vonly)); lab(out, "switch/new-compliance-approves-old-verifier-refuses", r);
+        let mut half = open.clone(); half.ct = false; half.cc = false;
+        let r = w.exec2(out, &Op::Transfer(0, 1, 5), &[0], &half, Some(&vonly)); lab(out, "switch/verifier-60-compliance-51", r);
+        w.exec_plain(out, &Op::SetIdv(1, adm));
+        let r = w.exec2(out, &Op::Transfer(0, 1, 5), &[0], &half, Some(&vonly)); lab(out, "switch/new-verifier-knows-nobody", r);
+        let r = w.exec2(out, &Op::Transfer(0, 1, 5), &[0], &closed, Some(&open)); lab(out, "switch/second-pair-open-first-closed", r);
+        let r = w.exec2(out, &Op::Forced(0, 1, 5, adm), &[adm], &closed, Some(&closed)); lab(out, "switch/forced-transfer-notifies-current", r);
+        w.exec_plain(out, &Op::SetCompliance(0, adm));
+        w.exec_plain(out, &Op::SetIdv(0, adm));
+        let r = w.exec2(out, &Op::Transfer(0, 1, 5), &[0], &closed, Some(&open)); lab(out, "switch/back-to-first-pair-closed", r);
+        let mut rec = open.clone(); rec.rec = vec![(0, 2)];
+        let mut rec_b = open.clone(); rec_b.rec = vec![(0, 1)];
+        let r = w.exec2(out, &Op::Recover(0, 1, adm), &[adm], &rec, Some(&rec_b)); lab(out, "switch/recovery-target-of-the-other-verifier", r);
+        let r = w.exec2(out, &Op::Recover(0, 2, adm), &[adm], &rec, Some(&rec_b)); lab(out, "switch/recovery-target-of-the-current-verifier", r);
+        w.finish(out, "situations/switch-collaborators");
+    }
+    // a contract address as a party: the token's own address receives, is minted to, is recovered to
+    {
+        let mut w = World::new(nu, 1, MAXTTL);
+        let t = w.tok.clone();
+        w.addrs.push(t);                       // index 4 = the token itself (it never signs)
+        w.m.bal.push(0); w.m.frz.push(0); w.m.flag.push(false); w.m.allow = vec![0; 25];
+        let open5 = Orc::open(5);
+        setup_std(&mut w, out, 2);
+        w.exec(out, &Op::Mint(0, 50, adm), &[adm], &open5);
+        let r = w.exec(out, &Op::Transfer(0, 4, 10), &[0], &open5); lab(out, "party/transfer-to-the-token-itself", r);
+        let r = w.exec(out, &Op::Mint(4, 5, adm), &[adm], &open5); lab(out, "party/mint-to-the-token-itself", r);
+        let mut o = open5.clone(); o.verified.retain(|&x| x != 4);
+        let r = w.exec(out, &Op::Transfer(0, 4, 10), &[0], &o); lab(out, "party/token-itself-unverified", r);
+        w.exec(out, &Op::SetFrozen(4, true, adm), &[adm], &open5);
+        let r = w.exec(out, &Op::Transfer(0, 4, 1), &[0], &open5); lab(out, "party/token-itself-frozen", r);
+        let r = w.exec(out, &Op::Forced(4, 1, 15, adm), &[adm], &open5); lab(out, "party/forced-out-of-the-token-itself", r);
+        w.finish(out, "situations/contract-as-party");
+    }
+}
+
 fn pick_amount(rng: &mut Rng, around: &[i128]) -> i128 {
     match rng.below(20) {
         0 => 0,
@@ -772,8 +934,8 @@ fn random_trace(out: &mut Out, rng: &mut Rng, idx: usize, len: usize, nu: usize)
     let late_setup = rng.chance(1, 8);
     if !late_setup {
         let o = rng.below(nu as u64) as usize;
-        w.exec_plain(out, &Op::SetCompliance(o));
-        w.exec_plain(out, &Op::SetIdv(o));
+        w.exec_plain(out, &Op::SetCompliance(rng.below(2) as usize, o));
+        w.exec_plain(out, &Op::SetIdv(rng.below(2) as usize, o));
         for _ in 0..(1 + rng.below(3)) {
             let t = rng.below(nu as u64) as usize;
             let amt = 1 + rng.below(1000) as i128;
@@ -801,7 +963,7 @@ fn random_trace(out: &mut Out, rng: &mut Rng, idx: usize, len: usize, nu: usize)
                 };
                 Op::Approve(x, s, pick_amount(rng, &[w.m.bal[x], 50]), live)
             }
-            44..=51 => Op::Mint(y, pick_amount(rng, &[100, i128::MAX - w.m.supply]), o),
+            44..=51 => Op::Mint(y, pick_amount(rng, &[100, i128::MAX.saturating_sub(w.m.supply)]), o),
             52..=58 => Op::Burn(x, pick_amount(rng, &[w.free(x), w.m.bal[x]]), o),
             59..=67 => Op::Forced(x, y, pick_amount(rng, &[w.free(x), w.m.bal[x]]), o),
             68..=73 => Op::Recover(x, y, o),
@@ -810,8 +972,8 @@ fn random_trace(out: &mut Out, rng: &mut Rng, idx: usize, len: usize, nu: usize)
             87..=89 => Op::Unfreeze(x, pick_amount(rng, &[w.m.frz[x]]), o),
             90..=91 => Op::Pause(o),
             92..=93 => Op::Unpause(o),
-            94 => Op::SetCompliance(o),
-            95 => Op::SetIdv(o),
+            94 => Op::SetCompliance(rng.below(2) as usize, o),
+            95 => Op::SetIdv(rng.below(2) as usize, o),
             _ => Op::Advance(long_gap(rng)),
         };
         // authorisation subset: the needed signer, sometimes missing, sometimes with superfluous signers
@@ -834,7 +996,17 @@ fn random_trace(out: &mut Out, rng: &mut Rng, idx: usize, len: usize, nu: usize)
             if rng.chance(3, 4) { orc.rec.retain(|p| p.0 != old); orc.rec.insert(0, (old, new)); }
         }
         // now and then close exactly the paused gate around a movement
-        w.exec(out, &op, &au, &orc);
+        // the other instance of each collaborator answers differently now and then
+        if rng.chance(1, 3) {
+            let mut ob = Orc::open(nu);
+            ob.verified.retain(|_| !rng.chance(1, 4));
+            ob.ct = rng.chance(1, 2);
+            ob.cc = rng.chance(1, 2);
+            ob.rec = orc.rec.iter().cloned().filter(|_| rng.chance(1, 2)).collect();
+            w.exec2(out, &op, &au, &orc, Some(&ob));
+        } else {
+            w.exec(out, &op, &au, &orc);
+        }
     }
     w.finish(out, &format!("random/{}", idx));
 }
@@ -1299,6 +1471,8 @@ mod cmpl {
             w.exec(out, &COp::Transferred(0, 1, 50, 2), &[], &[], Some(2));      // own token, but not bound
             w.exec(out, &COp::Created(1, 7, 0), &[], &[], Some(0));
             w.exec(out, &COp::Destroyed(1, 7, 0), &[], &[], Some(0));
+            w.exec(out, &COp::Created(1, 7, 0), &[], &[], None);               // by nobody
+            w.exec(out, &COp::Destroyed(1, 7, 0), &[Who::Party(1)], &[], None); // signed by a party, not by the token
             w.exec(out, &COp::CanTransfer(0, 1, 50, 0), &[], &[], None);
             w.exec(out, &COp::CanTransfer(0, 1, 50, 0), &[], &[0], None);        // the second in order refuses: third not asked
             w.exec(out, &COp::CanTransfer(0, 1, 50, 0), &[], &[1], None);        // the last refuses
@@ -1912,8 +2086,8 @@ mod stack {
             let idents = (0..3).map(|_| e.register(IdentC, ())).collect();
             let issuers = (0..2).map(|_| e.register(IssuerC, ())).collect();
             // the token is pointed at the real collaborators by its own set_compliance / set_identity_verifier calls
-            w.cmp = c.cmp.clone();
-            w.idv = idv;
+            w.cmps = vec![c.cmp.clone()];
+            w.idvs = vec![idv];
             SWorld { w, c, cti, irs: irs_, idents, issuers, world: IWorld::default(), stale: true, items: vec![] }
         }
 
@@ -2075,8 +2249,8 @@ mod stack {
             let adm = 3usize;
             let mut s = SWorld::new(min_temp, max_ttl);
             s.tok_plain(out, &Op::Advance(3));
-            s.tok_plain(out, &Op::SetCompliance(adm));
-            s.tok_plain(out, &Op::SetIdv(adm));
+            s.tok_plain(out, &Op::SetCompliance(0, adm));
+            s.tok_plain(out, &Op::SetIdv(0, adm));
             for (h, md) in [(3usize, 1usize), (3, 0), (0, 0), (0, 2), (4, 2), (1, 1), (2, 0)] { s.cmp(out, &COp::Add(h, md, adm), true); }
             s.cmp(out, &COp::Bind(0, adm), true);
             s.edit(out, &Edit::AddTopic(1));
@@ -2263,6 +2437,7 @@ fn main() {
 
     directed(&mut out);
     persistence(&mut out);
+    situations(&mut out);
     // the 2^7 gate vectors through both entry points
     let reps = if thorough { 4 } else { 1 };
     for _ in 0..reps {
@@ -2270,6 +2445,9 @@ fn main() {
             for bits in 0..128u32 { gate_trace(&mut out, &mut rng, via, bits); }
         }
     }
+    // VERIF_DIRECTED_ONLY=1 (self-check of the coverage gate): no random stream at all
+    let no_random = std::env::var("VERIF_DIRECTED_ONLY").map(|v| v == "1").unwrap_or(false);
+    let scale = if no_random { 0 } else { scale };
     // random adaptive sequences
     let (ntr, len, nu) = if thorough { (1500 * scale, 80, 5) } else { (110 * scale, 45, 4) };
     for i in 0..ntr {
